@@ -81,6 +81,73 @@ def py_bounded(run, prop, direction, args):
         shutil.rmtree(work, ignore_errors=True)
 
 
+def py_proof(run, prop, args):
+    """Python serializers UNDER CONTRACT (props/pyprog.py): the real generated `_serialize_` of every corpus type and every
+    shape (array lengths, union options), E-PY against Enc_T derived from the pydsdl model, with the support-library
+    primitives replaced by their C14 contracts."""
+    import multiprocessing
+    import pathlib
+    import tempfile
+    import pydsdl
+    from contracts import py_leg
+    from props import pyprog
+    from props.common import SRC
+    from vk import render
+    work = pathlib.Path(tempfile.mkdtemp(prefix="vk_pyp_"))
+    try:
+        render.render_types("py", PP.CORPUS / "vk", work, {})
+        lang = py_leg.py_lang()
+        types = sorted(PP.flatten_types(pydsdl.read_namespace(str(PP.CORPUS / "vk"), [])), key=str)
+        jobs = []
+        for i, t in enumerate(types):
+            m, c = py_leg.mod_cls(lang, t)
+            jobs.append((i, str(PP.CORPUS / "vk"), t.full_name, (t.version.major, t.version.minor), (work / (m.replace(".", "/") + ".py")).read_text(), m, c, str(SRC)))
+        with multiprocessing.get_context("fork").Pool(min(14, len(jobs))) as pool:
+            out = pool.map(pyprog.generate, jobs, chunksize=1)
+    finally:
+        shutil.rmtree(work, ignore_errors=True)
+    obs = []
+    outside = {}
+    for idx, target, o, info, err in out:
+        t = types[idx]
+        if err:
+            if err.startswith("not in the subset"):
+                outside[str(t)] = err
+            else:
+                run.undecide(f"py:{t}: {err[:300]}")
+            continue
+        if info.get("shapes_outside_the_subset"):
+            outside[str(t)] = f"{len(info['shapes_outside_the_subset'])} of {info['shapes'] + len(info['shapes_outside_the_subset'])} shapes: {info['shapes_outside_the_subset'][0]}"
+        if len(o) + info.get("trivial", 0) == 0 or info.get("returns", 0) == 0:
+            run.undecide(f"py:{t}: vacuity guard (obligations={len(o)}, normal exits={info.get('returns', 0)})")
+        run.add_function(f"generated Python {t}._serialize_ ({info['shapes']} shapes, {len(o)} obligations)")
+        for a in info.get("assumed", []):
+            run.assume("py: " + a)
+        for x in o:
+            x.name = "py:" + x.name
+        obs.extend(o)
+    res = smt.solve_all(obs)
+    run.add_results(res)
+    run.notes["python_serializers_not_under_contract"] = outside
+    run.assume("py: contracts of the Serializer primitives (proved under C14 for every bit length and cursor position); ASSUMED contracts of the NumPy/struct based primitives "
+               "(add_*_array_of_standard_bit_length_primitives, add_*_array_of_bits, add_*_f16/f32/f64: they place the elements' / the packed float's bits at the cursor)",
+               "py: data-object invariant of `self` (scalar integers within the DSDL range, finite float16/float32 scalars within the type's range, array elements within the NumPy element type): "
+               "established by the generated setters (C18)")
+    seen = set()
+    for r in res:
+        if r.ok:
+            continue
+        base = r.ob.name.split("/p")[0]
+        tname = r.ob.name.split("[", 1)[1].split("]")[0].split("{")[0] if "[" in r.ob.name else ""
+        if base in seen:
+            continue
+        seen.add(base)
+        if any(f.obligation.startswith(f"native[py]:{tname}#") for f in run.failures):
+            continue  # the native run already reports this type with a replayed failing input
+        if r.status == "sat":
+            run.fail(report.Failure(base, r.ob.kind, f"{r.ob.name} not discharged (sat); model {dict(list(r.model.items())[:8])}", {"model": r.model, "solver_output": r.raw[:2000], "smt2": r.ob.smt2()}, False))
+
+
 def main(prop=PROP, direction=("ser",), kinds=KINDS, title="serializers", extra=None):
     args = parse_args(prop)
     run = report.Run(prop, "proof", f"./check {prop}", args.tier)
@@ -103,6 +170,8 @@ def main(prop=PROP, direction=("ser",), kinds=KINDS, title="serializers", extra=
     cpp_bounded(run, prop, direction, args)
     if prop in ("C01", "C02"):
         py_bounded(run, prop, direction, args)
+    if prop == "C01":
+        py_proof(run, prop, args)
     tpls = tuple(t for d, t in (("ser", "serialization.j2"), ("des", "deserialization.j2")) if d in direction)
     PP.template_error_guards(run, tpls)
     if prop in ("C01", "C02"):  # the same template-level obligation for the codecs that are not under contract
